@@ -61,6 +61,7 @@ class Interp(OpsMixin, BuiltinsMixin):
             # the module body is executed once per interpreter: class namespaces and module constants are
             # never written by the functions under contract (checked: no `global`, no class-attribute stores).
             self.load_module()
+            self.writes = []      # writes made while the module body builds its own objects are not writes of a call
 
     def load_module(self):
         self.globals = Env()
